@@ -4,49 +4,49 @@ COMMON = "Trusted: the harness's mini API server and event loop reproduce what t
 
 TEXT = {
     "C20": {
-        "level": "Exploration of schedules under the race detector: generated event batches are delivered concurrently, one goroutine per reconciler (service events plus the re-syncs other handlers request, pool / configuration events, node events; in a third of the controller cases two service workers, the events of one service staying on one of them), through the handlers the real k8s.New hands to the reconcilers (its manager is built without an API server and never started; the handlers are the Listener methods unless New is changed) to the real controller and speaker, while fetcher goroutines query pool counters, layer-2 status (reading the advertisements as the status reconciler does), per-service BGP peers and the ARP decision; any race report, panic or deadlock is a violation, and the final statuses / allocator memory / counters / announcements / routes must equal those of a serial replay of the same handlers in the order in which they took effect (logged inside the Listener's critical section).",
+        "level": "Exploration of schedules under the race detector: generated event batches are delivered concurrently, one goroutine per reconciler (service events plus the re-syncs other handlers request, pool / configuration events, node events; in a third of the controller cases two service workers, the events of one service staying on one of them), through the handlers the real k8s.New hands to the reconcilers (its manager is built without an API server and never started; the handlers are the Listener methods unless New is changed) to the real controller and speaker, while fetcher goroutines query pool counters, layer-2 status (reading the advertisements as the status reconciler does), per-service BGP peers and the ARP decision; any race report, panic or deadlock is a violation, and the final statuses / allocator memory / counters / announcements / routes must equal those of a serial replay of the same handlers in the order in which they took effect (logged inside the Listener's critical section). A further -race engine runs FRRK8sReconciler.UpdateConfig (handlers) against Reconcile (worker); node events go through the real NodeReconciler.",
         "design_ref": "DESIGN.md section 21",
         "note": "Interleavings are produced by the Go scheduler (yields generated), not enumerated; the race detector extends each run to executions with the same happens-before graph. Workloads are restricted to those whose result is a function of the handler order. A race report fails the shard, not a single case: its replay file re-runs the shard's seed.",
         "technique": "property-based generation of concurrent workloads + race detector + serial-replay differential (rapid, -race)",
     },
     "C17": {
-        "level": "Exploration with injected faults, in real time: generated sequences of Set calls (incl. empty sets and attribute-only changes), peer-side connection drops (at once / after k more UPDATEs), an optional handshake with an unexpected ASN and short pauses are run against the real native session (NewSession, run, connect, dialMD5, consumeBGP, sendUpdates, Close) over loopback TCP under the race detector; a scripted in-process peer decodes the stream with the independent RFC 4271 decoder and its table for the current connection must equal the last requested set; after Close no connection attempt or message may follow. A second engine runs the real Set / sendUpdates / abort / Close / consumeBGP / sendKeepalives inside a testing/synctest bubble over net.Pipe: the peer reads byte by byte, so connection losses are placed at exact byte offsets (inside the handshake, an UPDATE, a withdraw, a KEEPALIVE), keepalive ticks and back-off run on the virtual clock, refused Set calls are interleaved, and at every point where all goroutines are idle, the connection is up and nothing is pending the peer table must equal the last requested set - without any timeout.",
+        "level": "Exploration with injected faults, in real time: generated sequences of Set calls (incl. empty sets and attribute-only changes), peer-side connection drops (at once / after k more UPDATEs), an optional handshake with an unexpected ASN and short pauses are run against the real native session (NewSession, run, connect, dialMD5, consumeBGP, sendUpdates, Close) over loopback TCP under the race detector; a scripted in-process peer decodes the stream with the independent RFC 4271 decoder and its table for the current connection must equal the last requested set; after Close no connection attempt or message may follow. A second engine runs the real Set / sendUpdates / abort / Close / consumeBGP / sendKeepalives inside a testing/synctest bubble over net.Pipe: the peer reads byte by byte, so connection losses are placed at exact byte offsets (inside the handshake, an UPDATE, a withdraw, a KEEPALIVE), keepalive ticks and back-off run on the virtual clock, refused Set calls are interleaved, and at every point where all goroutines are idle, the connection is up and nothing is pending the peer table must equal the last requested set - without any timeout. Front half: engine speaker-requests (a changed route must be requested again with fresh objects); route sets with up to 63 communities; refused Set calls.",
         "design_ref": "DESIGN.md section 18",
         "note": "Trusted: the scripted peer and its decoder. Timing of changes relative to the sender loop is sampled by the OS scheduler, not enumerated; convergence is awaited for 3 s + 10 s grace (normal: < 5 ms), a verdict by timeout is labelled as such. The virtual-clock engine re-states the dialling half of connect() and the retry loop of run() (dialMD5 needs real sockets); the loopback engine covers the real ones.",
         "technique": "stateful property-based testing with fault injection against a scripted peer (rapid, -race; rapid + testing/synctest on a virtual clock)",
     },
     "C19": {
-        "level": "Exploration on a virtual clock: the real debouncer of internal/bgp/frr/config.go and the frr-k8s variant run inside testing/synctest bubbles (go1.26.8); submissions (new, identical, re-apply, older) at inter-arrival times chosen around the debounce and retry intervals, finite failure patterns and a slow reload action are generated; the observed apply sequence (time, configuration, outcome) must equal that of an independent event-driven reference model, submitters must never block longer than the action (or, for the frr-k8s variant, than a consumer that is busy or starts late when a window expires), and the clauses of the statement are re-checked directly. Two further engines put the real reload action (template, file, scripted reloader signal) and the whole real FRR sessionManager (NewSession / Set / Close / SyncBFDProfiles / SyncExtraInfo) in front of the real debouncer; the last applied rendering must equal what a fresh manager renders for the final state.",
+        "level": "Exploration on a virtual clock: the real debouncer of internal/bgp/frr/config.go and the frr-k8s variant run inside testing/synctest bubbles (go1.26.8); submissions (new, identical, re-apply, older) at inter-arrival times chosen around the debounce and retry intervals, finite failure patterns and a slow reload action are generated; the observed apply sequence (time, configuration, outcome) must equal that of an independent event-driven reference model, submitters must never block longer than the action (or, for the frr-k8s variant, than a consumer that is busy or starts late when a window expires), and the clauses of the statement are re-checked directly. Two further engines put the real reload action (template, file, scripted reloader signal) and the whole real FRR sessionManager (NewSession / Set / Close / SyncBFDProfiles / SyncExtraInfo) in front of the real debouncer; the last applied rendering must equal what a fresh manager renders for the final state. Front half: engine speaker-resubmission (a full re-sync of an unchanged state must hand every session the identical request and extra configuration) and the order-independence of the frr-k8s backend.",
         "design_ref": "DESIGN.md section 20",
         "note": "Trusted: go1.26.8's testing/synctest and the assumption that the code under test (time, channels, select) behaves under go1.26.8 as under go1.23.6; simultaneous expiry and submission may resolve either way.",
         "technique": "property-based testing on a virtual clock against a reference model (rapid + testing/synctest)",
     },
     "C13": {
-        "level": "Exploration: (1) generated histories of announce / re-announce with another interface set / withdraw / ARP packets (request, reply or another ARP-family opcode x destination x target x interface) / replay of the unsolicited-announcement queue, against the real Announce and real arpResponders over an in-memory packet connection, judged by a reference model after every operation (reply iff announced and covered, reference counts, gratuitous frames); (2) concurrent runs under the race detector: requester goroutines against the real responder loop while an updater toggles and re-scopes a co-tenant; (3) a placed interleaving: while the real gratuitous() writes its k-th frame the holders of the address are withdrawn on another goroutine; once the withdrawal of the last holder has returned no further unsolicited frame may be written; (4) generated speaker histories: what the real announcer holds (i.e. answers for) must equal what freshly started speakers hold for the final state.",
+        "level": "Exploration: (1) generated histories of announce / re-announce with another interface set / withdraw / ARP packets (request, reply or another ARP-family opcode x destination x target x interface) / replay of the unsolicited-announcement queue, against the real Announce and real arpResponders over an in-memory packet connection, judged by a reference model after every operation (reply iff announced and covered, reference counts, gratuitous frames); (2) concurrent runs under the race detector: requester goroutines against the real responder loop while an updater toggles and re-scopes a co-tenant; (3) a placed interleaving: while the real gratuitous() writes its k-th frame the holders of the address are withdrawn on another goroutine; once the withdrawal of the last holder has returned no further unsolicited frame may be written; (4) generated speaker histories: what the real announcer holds (i.e. answers for) must equal what freshly started speakers hold for the final state. The speaker engine also judges the interface scope of every announcement against a closed form (all interfaces, or the union of the interface lists of the L2 advertisements selecting this node).",
         "design_ref": "DESIGN.md section 14",
         "note": "Trusted: the in-memory PacketConn and the ethernet/arp library's decoder. NOT reached: the NDP packet path (ndp.Conn needs a raw ICMPv6 socket); it shares shouldAnnounce and the reference counting, which are covered. Interleavings of the concurrent engine are sampled by the Go scheduler.",
         "technique": "stateful property-based testing against a reference model + race-detector runs of generated concurrent workloads (rapid, -race)",
     },
     "C14": {
-        "level": "Exploration: generated session sets and advertisement sets go through the real sessionManager (NewSession/Set/Close), createConfig and templateConfig; the produced text is parsed and evaluated by the harness's interpreter of FRR's network / route-map / prefix-list semantics: per neighbor the offered prefixes with local preference and communities must equal the requested ones, inbound everything is rejected, routers originate the union, session parameters sit on the right neighbor, and the text is identical under creation order, advertisement order, earlier accepted Set calls, refused Set calls (which must change nothing) and close/re-create churn.",
+        "level": "Exploration: generated session sets and advertisement sets go through the real sessionManager (NewSession/Set/Close), createConfig and templateConfig; the produced text is parsed and evaluated by the harness's interpreter of FRR's network / route-map / prefix-list semantics: per neighbor the offered prefixes with local preference and communities must equal the requested ones, inbound everything is rejected, routers originate the union, session parameters sit on the right neighbor, and the text is identical under creation order, advertisement order, earlier accepted Set calls, refused Set calls (which must change nothing) and close/re-create churn. Front half: engine speaker-requests (what the speaker requests on each session vs closed form and fresh speakers, no advertisement object changed after it was handed over) and the passwordForSession engine.",
         "design_ref": "DESIGN.md section 15",
         "note": "Trusted: the interpreter's reading of FRR semantics (documented in its header); unknown constructs make the run inconclusive (exit 2). Sessions satisfy what the configuration layer guarantees in FRR mode; disableMP is not combined with unnumbered peers.",
         "technique": "property-based testing: interpretation of the generated artefact vs the request (rapid)",
     },
     "C15": {
-        "level": "Exploration: the same generated sessions through the real frr-k8s session manager; the captured FRRConfiguration is judged field by field against the frr-k8s API reading (allowed prefixes sorted/unique, community and local-preference associations exact, router prefixes = union, node selector = this node, session parameters, password xor secret) and differentially against the routes the FRR-mode text offers for the same sessions; passwordForSession is checked over all backend / secret-handling combinations.",
+        "level": "Exploration: the same generated sessions through the real frr-k8s session manager; the captured FRRConfiguration is judged field by field against the frr-k8s API reading (allowed prefixes sorted/unique, community and local-preference associations exact, router prefixes = union, node selector = this node, session parameters, password xor secret) and differentially against the routes the FRR-mode text offers for the same sessions; passwordForSession is checked over all backend / secret-handling combinations. Front half: engine speaker-requests (what the speaker requests on each session, incl. Community CR aliases, zero-padded literals and advertisements that both name and select pools).",
         "design_ref": "DESIGN.md section 16",
         "note": "Trusted: the C14 interpreter (for the differential) and the API reading. One genuine defect (source address dropped) is a known finding, excluded by signature.",
         "technique": "property-based testing: API-level interpretation + differential against the other backend (rapid)",
     },
     "C05": {
-        "level": "Exploration: generated speaker histories (services, addresses, endpoint slices, node labels/conditions, configuration with peers/advertisements/aggregation/communities/peer lists, membership) through the real reconcilers, Listener, speaker controller and BGP controller over a recording session manager; at every quiescence the last Set on every live session and PeersForService are compared, as sets, with a closed form computed from the CRs.",
+        "level": "Exploration: generated speaker histories (services, addresses, endpoint slices, node labels/conditions, configuration with peers/advertisements/aggregation/communities/peer lists, membership) through the real reconcilers, Listener, speaker controller and BGP controller over a recording session manager; at every quiescence the last Set on every live session and PeersForService are compared, as sets, with a closed form computed from the CRs. Further engines: the fresh-speaker differential (a configuration change the speaker never took up shows), the per-neighbor offered routes through the real FRR and frr-k8s backends, session parameters (router id, ASNs, address, password) of every live session, and the concurrent speaker workloads of C20.",
         "design_ref": "DESIGN.md section 6",
         "note": "Trusted: the closed form (incl. the C10 eligibility iff) and the mini API server / event loop; statuses are controller-consistent; the speaker under test is node0.",
         "technique": "stateful property-based testing against a closed-form per-peer route set (rapid)",
     },
     "C09": {
-        "level": "Exploration: the same speaker histories; at every quiescence two freshly constructed speakers (nodes-then-config, config-then-nodes) are fed the final store and must hold exactly the same layer-2 announcements (service, address, interface scope), per-session route sets and per-service peers as the instance that lived through the history.",
+        "level": "Exploration: the same speaker histories; at every quiescence two freshly constructed speakers (nodes-then-config, config-then-nodes) are fed the final store and must hold exactly the same layer-2 announcements (service, address, interface scope), per-session route sets and per-service peers as the instance that lived through the history. Events reach the reconcilers through their real update filters; EndpointSlice lists may fail transiently; a quarter of the cases run with a load-balancer class.",
         "design_ref": "DESIGN.md section 10",
         "note": "Trusted: the overlay-only goroutine-free announcer constructor; the final store holds a configuration the speaker accepts and controller-consistent statuses. One genuine defect is a known finding (first-seen node with memberlist disabled), excluded by signature.",
         "technique": "stateful property-based testing: differential against fresh instances (rapid)",
@@ -70,7 +70,7 @@ TEXT = {
         "technique": "property-based testing: metamorphic relations + bounded exhaustive enumeration (rapid)",
     },
     "C01": {
-        "level": "Exploration: two engines. (a) generated histories of allocator API calls (Assign/Allocate/AllocateFromPool/additional family/Unassign/SetPools) with arguments derived from generated Services as the controller derives them; (b) generated histories of service/pool/re-sync events driven through the real ServiceReconciler, PoolReconciler, Listener, controller and allocator over an in-memory API server with a harness-owned schedule. Exclusivity is checked pairwise on Allocator.IPs after every call / handler invocation and on the Service statuses at every quiescence.",
+        "level": "Exploration: two engines. (a) generated histories of allocator API calls (Assign/Allocate/AllocateFromPool/additional family/Unassign/SetPools) with arguments derived from generated Services as the controller derives them; (b) generated histories of service/pool/re-sync events driven through the real ServiceReconciler, PoolReconciler, Listener, controller and allocator over an in-memory API server with a harness-owned schedule. Exclusivity is checked pairwise on Allocator.IPs after every call / handler invocation and on the Service statuses at every quiescence. Further engines: the controller histories with finite sequences of failing status writes and reads, and the concurrent workloads of C20 (race detector, exclusivity at rest, serial replay). The simulator delivers events through the reconcilers' real update filters.",
         "design_ref": "DESIGN.md section 2", "note": COMMON,
         "technique": "stateful property-based testing against a reference model (rapid): pairwise sharing-rule invariant after every step",
     },
@@ -80,7 +80,7 @@ TEXT = {
         "technique": "stateful property-based testing against a closed-form specification computed from the CRs (rapid)",
     },
     "C03": {
-        "level": "Exploration: controller histories with innocent bystanders; at every quiescence each service whose spec was not written since the previous quiescence and whose previous addresses are still admissible (independent predicate over CRs, own spec and co-tenants) must hold the same set (or gain the missing family under PreferDualStack); two forced re-syncs at quiescence must write at most once per service, then not at all.",
+        "level": "Exploration: controller histories with innocent bystanders; at every quiescence each service whose spec was not written since the previous quiescence and whose previous addresses are still admissible (independent predicate over CRs, own spec and co-tenants) must hold the same set (or gain the missing family under PreferDualStack); two forced re-syncs at quiescence must write at most once per service, then not at all. Also the concurrent workloads of C20 (a pool rename delivered while a service is processed must not cost it its address).",
         "design_ref": "DESIGN.md section 4", "note": COMMON,
         "technique": "stateful property-based testing: frame condition between quiescent states + write counting (rapid)",
     },
@@ -95,12 +95,12 @@ TEXT = {
         "technique": "stateful property-based testing against an independent admissibility search (rapid)",
     },
     "C11": {
-        "level": "Exploration: (a) allocator API histories: after every call the internal bookkeeping maps must be exactly what the surviving assignments of the reference model imply, CountersForPool must equal exact big-integer counts of usable/used addresses (saturating), and every address released by the call must be assignable at once to a probe service; (b) controller histories: at every quiescence memory and counters equal the statuses. The controller histories contain failing status writes and reads, and the starvation search of C07 runs at every quiescence as well (a given-up address must be available to others).",
+        "level": "Exploration: (a) allocator API histories: after every call the internal bookkeeping maps must be exactly what the surviving assignments of the reference model imply, CountersForPool must equal exact big-integer counts of usable/used addresses (saturating), and every address released by the call must be assignable at once to a probe service; (b) controller histories: at every quiescence memory and counters equal the statuses. The controller histories contain failing status writes and reads, and the starvation search of C07 runs at every quiescence as well (a given-up address must be available to others). Also the concurrent workloads of C20 (pools shrunk / removed / re-homed while services come and go).",
         "design_ref": "DESIGN.md section 12", "note": COMMON,
         "technique": "stateful property-based testing: model-derived bookkeeping differential + exact counting oracle + reuse probes (rapid)",
     },
     "C08": {
-        "level": "Exploration: generated resource sets (pools in every address notation from a small colliding v4/v6 space, nodes with internal IPs, L2/BGP advertisements with names/selectors/aggregation lengths/localprefs/peer lists) are parsed by the real config.For; every accepted configuration is compared with the harness's own netip interval arithmetic and selector evaluation (exact address sets, pairwise disjointness, node IPs, advertisement attachment, aggregate containment, localpref collisions).",
+        "level": "Exploration: generated resource sets (pools in every address notation from a small colliding v4/v6 space, nodes with internal IPs, L2/BGP advertisements with names/selectors/aggregation lengths/localprefs/peer lists) are parsed by the real config.For; every accepted configuration is compared with the harness's own netip interval arithmetic and selector evaluation (exact address sets, pairwise disjointness, node IPs, advertisement attachment, aggregate containment, localpref collisions). A second engine runs speaker histories through the real ConfigReconciler (events filtered by its real update filters) and compares, at every quiescence, the configuration the speaker runs with against config.For of the current store.",
         "design_ref": "DESIGN.md section 9",
         "note": "Trusted: the harness's interval arithmetic; an IPv4-mapped spelling denotes the IPv4 address; only the notations of the generator grammar are judged. Rejections are not judged (the property speaks about accepted configurations).",
         "technique": "property-based testing: generated configurations vs an independent closed-form specification (rapid)",
@@ -112,7 +112,7 @@ TEXT = {
         "technique": "property-based testing: metamorphic relation under permutation and repetition (rapid)",
     },
     "C16": {
-        "level": "Exploration: tens of thousands (quick) to millions (thorough) of generated messages per run are encoded by the real sendOpen/sendUpdate/sendWithdraw/sendKeepalive and read back by an independent RFC 4271 decoder; generated and mutated OPEN byte strings are fed to the real readOpen through a counting reader; the thorough tier adds a coverage-guided native fuzz campaign with the same oracle; an engine over whole sessions (real NewSession/connect/sendUpdates against a scripted loopback peer, with and without a configured source address) decodes every message of the stream and checks NEXT_HOP against the connection\'s local address. It samples the input space, it does not exhaust it.",
+        "level": "Exploration: tens of thousands (quick) to millions (thorough) of generated messages per run are encoded by the real sendOpen/sendUpdate/sendWithdraw/sendKeepalive and read back by an independent RFC 4271 decoder; generated and mutated OPEN byte strings are fed to the real readOpen through a counting reader; the thorough tier adds a coverage-guided native fuzz campaign with the same oracle; an engine over whole sessions (real NewSession/connect/sendUpdates against a scripted loopback peer, with and without a configured source address) decodes every message of the stream and checks NEXT_HOP against the connection\'s local address. It samples the input space, it does not exhaust it. Front half: engine speaker-requests (the content and the session parameters the speaker hands to the encoder); the scripted loopback peer varies its capability layout and capability per connection and judges the AS_PATH width.",
         "design_ref": "DESIGN.md section 17",
         "note": "Trusted: the harness's own RFC 4271 decoder; next hop is the 4-byte IPv4 address connect() obtains; trailing host bits of an NLRI are irrelevant.",
         "technique": "property-based testing: round trip through an independent decoder + mutation fuzzing of readOpen (rapid, go native fuzz)",
